@@ -958,6 +958,10 @@ func (ctx *Context) evaluate() {
 				ctx.Error = errors.New("奖惩骰个数必须为整数")
 				return
 			}
+			if diceNum < 0 {
+				ctx.Error = errors.New("奖惩骰个数不能为负数")
+				return
+			}
 
 			if numOpCountAdd(diceNum) {
 				return
